@@ -4,7 +4,12 @@ from . import _secp as S
 ID = "C05"
 EXTRA_TARGETS = ["Proofs/EcdsaRefine.vo", "Proofs/EcdsaAbstractInst.vo"]
 LEVEL = "partial"
-RULE = ("deterministic members of the leading-zero-byte value class (shared ECDH x, r, s, digest, private key starting with 00; nonces k with x(kG) < 2^248 and < 2^240; digests >= n) in every op that carries such a field; keys {1, 2, 3, n-1, n-2, 2^255, 2^255-1, n/2, n/2+1, random} (and rejected ones: 0, n, n+1, 2^256-1, 31/33 bytes) x "
+RULE = ("every public function of src/ecdsa/*.rs, PrivateKey::sign_message, Signature::verify_message, PublicKey::verify_message / "
+        "is_valid_message and the r/s accessors is reached by some op; every hash x reverse_k x signing entry point on the empty and "
+        "the one-byte message; messages in all length bands up to 1000; signer / nonce-key compression markers in all four "
+        "combinations; signature objects with and without recovery info through the verifier; private_key_from_signature_k for small "
+        "and large keys and nonces and both public-key forms; "
+        "deterministic members of the leading-zero-byte value class (shared ECDH x, r, s, digest, private key starting with 00; nonces k with x(kG) < 2^248 and < 2^240; digests >= n) in every op that carries such a field; keys {1, 2, 3, n-1, n-2, 2^255, 2^255-1, n/2, n/2+1, random} (and rejected ones: 0, n, n+1, 2^256-1, 31/33 bytes) x "
         "messages of length 0..200 (incl. 55/56/64 and long LCG streams) x {sha256, sha256d} x reverse_k x compression for every "
         "signing entry point (deterministic, sign_message, caller nonce incl. k in {1, 2, n-1}, pre-hashed digest incl. 0, n, 2^256-1 "
         "and wrong lengths, randomised nonce); sign-then-verify with the same and with another key / message / hash / compression; "
@@ -63,6 +68,77 @@ def lzb(v):
     return (256 - v.bit_length()) // 8
 
 
+def audit_cases(A, rng, thorough):
+    """deterministic coverage of: every public entry point, state carried in objects, marker coincidences,
+    every hash x reverse_k x entry point on the EMPTY message, long messages in all length bands"""
+    H = S.h32
+    d1, d2 = 0x1111111111111111111111111111111111111111111111111111111111111111, LZ_KEY
+    # --- every hash x reverse_k x entry point, empty message (and a 1-byte one) ---
+    for h in HASHES:
+        for rk in (0, 1):
+            for m in ("", "00"):
+                A("ecdsa.sign_det", [H(d1), rk, m, h, rk])
+                A("ecdsa.sign_random", [H(d2), 1 - rk, m, h, rk, "l:%d:32" % rng.randrange(1, 2 ** 31)])
+                A("ecdsa.sign_verify", [H(d1), 1, m, h, rk, H(d1), 0, m, h])
+            A("ecdsa.sign_verify", [H(d1), 1, "", h, rk, H(d1), 0, "00", h])            # empty vs one zero byte
+            A("ecdsa.sign_verify", [H(d1), 1, "", h, rk, H(d1), 0, "", HASHES[1 - HASHES.index(h)]])
+        A("ecdsa.sign_k", [H(d1), 1, H(7), "", h])
+        A("ecdsa.sign_k", [H(d2), 0, H(N - 7), "", h, 0])
+        A("ecdsa.privkey_from_k", [H(d1), 1, H(12345), 1, "", h, 1])
+        r, s_, _ = S.sign_msg(d1, b"", h == "sha256d")
+        pk = S.enc(S.pub(d1), h == "sha256").hex()
+        A("ecdsa.verify_digest", ["", pk, H(r), H(s_), h])
+        A("ecdsa.verify_hashbuf", [S.h256(b"", h == "sha256d").hex(), pk, H(r), H(s_)])
+        A("ecdsa.verify_der", ["", pk, S.der(r, s_).hex(), h])
+        A("ecdsa.verify_der", ["00", pk, S.der(r, s_).hex(), h])
+        if h == "sha256":
+            A("ecdsa.verify_message", ["", pk, H(r), H(s_)])
+    A("ecdsa.sign_message", [H(d1), 1, ""])
+    A("ecdsa.sign_message", [H(d2), 0, ""])
+    # --- long messages: every length band mod 64 / mod 256, both hashes, both nonce modes ---
+    for i, n in enumerate([119, 120, 127, 128, 129, 255, 256, 257, 300, 511, 512, 513, 1000]):
+        A("ecdsa.sign_det", [H(rkey(rng)), i % 2, "l:%d:%d" % (n + 1, n), HASHES[i % 2], (i // 2) % 2])
+    A("ecdsa.sign_k", [H(d1), 1, H(rkey(rng)), "l:5:300", "sha256d"])
+    A("ecdsa.sign_random", [H(d1), 1, "l:6:257", "sha256d", 1, "r:11:32"])
+    A("ecdsa.sign_message", [H(d1), 1, "l:7:256"])
+    # --- caller nonce: signer / nonce key compression markers in all four combinations (the marker of the result is the
+    #     signer's), nonce key = signing key with the other marker ---
+    for d in (d1, rkey(rng)):
+        k = rkey(rng)
+        for c in (0, 1):
+            for kc in (0, 1):
+                A("ecdsa.sign_k", [H(d), c, H(k), msg_descr(rng)[0], rng.choice(HASHES), kc])
+    A("ecdsa.sign_k", [H(d1), 1, H(d1), "6162", "sha256", 0])
+    A("ecdsa.sign_k", [H(d1), 0, H(d1), "6162", "sha256d", 1])
+    # --- ECDSA::private_key_from_signature_k: key, nonce and public-key form combinations, small and large values ---
+    for (d, k) in [(5, 7), (123456789, 1), (1, 1), (N - 1, N - 1), (2, N - 2), (d2, 153), (rkey(rng), rkey(rng)), (rkey(rng), rkey(rng))]:
+        for pc in (0, 1):
+            A("ecdsa.privkey_from_k", [H(d), rng.randrange(2), H(k), rng.randrange(2), msg_descr(rng, rng.randrange(0, 40))[0], rng.choice(HASHES), pc])
+    A("ecdsa.privkey_from_k", [H(0), 1, H(5), 1, "00", "sha256", 1])
+    # --- signature objects WITHOUT recovery info (from_der) through the verifier; DER + flag suffix; broken DER ---
+    for i in range(4 if not thorough else 30):
+        d = rkey(rng)
+        double = i % 2 == 1
+        hn = "sha256d" if double else "sha256"
+        mb = bytes(rng.randrange(256) for _ in range(rng.randrange(0, 60)))
+        r, s_, _ = S.sign_msg(d, mb, double)
+        pk = S.enc(S.pub(d), i % 4 < 2).hex()
+        A("ecdsa.verify_der", [mb.hex(), pk, S.der(r, s_).hex(), hn])
+        A("ecdsa.verify_der", [mb.hex(), pk, (S.der(r, s_) + bytes([rng.choice(S.FLAGS)])).hex(), hn])
+        A("ecdsa.verify_der", [(mb + b"?").hex(), pk, S.der(r, s_).hex(), hn])
+        A("ecdsa.verify_der", [mb.hex(), pk, S.der(r, N - s_).hex(), hn])              # high-S twin
+    A("ecdsa.verify_der", ["00", S.enc(S.pub(5)).hex(), "3006020101020100", "sha256"])
+    A("ecdsa.verify_der", ["00", S.enc(S.pub(5)).hex(), "", "sha256"])
+    A("ecdsa.verify_der", ["00", "", "3006020101020101", "sha256"])
+    # --- empty / absent fields ---
+    pk = S.enc(S.pub(5)).hex()
+    A("ecdsa.verify_digest", ["00", pk, "", "", "sha256"])
+    A("ecdsa.verify_hashbuf", ["", pk, H(1), H(1)])
+    A("ecdsa.verify_message", ["", pk, H(1), ""])
+    A("ecdh.derive", ["", pk])
+    A("ecdh.derive", [H(5), ""])
+
+
 def leading_zero_cases(A, rng, thorough):
     """deterministic members of the value class 'a 32-byte field starts with 00'"""
     H = S.h32
@@ -81,7 +157,7 @@ def leading_zero_cases(A, rng, thorough):
                 pt, a = S.add(pt, B), a + 1
     for (a, b) in pairs:
         assert lzb(S.mul(a * b % N, S.G)[0]) >= 1
-        for (c1, c2) in ((1, 1), (0, 0), (1, 0), (0, 1)):
+        for (c1, c2) in (((1, 1), (0, 0), (1, 0), (0, 1)) if thorough or (a, b) in LEADING_ZERO_PAIRS[:2] else ((1, 0), (0, 1))):
             A("ecdh.pair", [H(a), c1, H(b), c2])
         A("ecdh.derive", [H(a), S.enc(S.pub(b), True).hex()])
         A("ecdh.derive", [H(b), S.enc(S.pub(a), False).hex()])
@@ -161,22 +237,22 @@ def generate(rng, tier):
         for h in HASHES:
             rk = rng.randrange(2)
             A("ecdsa.sign_det", [S.h32(d), rng.randrange(2), msg_descr(rng)[0], h, rk])
-    for n in [0, 55, 56, 64, 200] + ([1, 63, 65, 119, 120, 127, 128, 1000] if thorough else []):
+    for j, n in enumerate([0, 55, 56, 64, 200] + ([1, 63, 65, 119, 120, 127, 128, 1000] if thorough else [])):
         for h in HASHES:
-            for rk in (0, 1):
+            for rk in ((0, 1) if thorough else ((j + HASHES.index(h)) % 2,)):
                 A("ecdsa.sign_det", [S.h32(rkey(rng)), rng.randrange(2), msg_descr(rng, n)[0], h, rk])
-    for _ in range(16 * mult):
+    for _ in range(6 if not thorough else 160):
         A("ecdsa.sign_det", [S.h32(keypool()), rng.randrange(2), msg_descr(rng)[0], rng.choice(HASHES), rng.randrange(2)])
     for bk in BADKEYS:
         A("ecdsa.sign_det", [bk, 1, "616263", "sha256", 0])
-    for _ in range(8 * mult):
+    for _ in range(3 if not thorough else 80):
         A("ecdsa.sign_message", [S.h32(keypool()), rng.randrange(2), msg_descr(rng)[0]])
     A("ecdsa.sign_message", [BADKEYS[1], 1, "00"])
 
     # ---------------------------------------------------------------- caller nonce
     for k in [1, 2, N - 1, N - 2, 2 ** 255]:
         A("ecdsa.sign_k", [S.h32(keypool()), rng.randrange(2), S.h32(k), msg_descr(rng)[0], rng.choice(HASHES)])
-    for _ in range(14 * mult):
+    for _ in range(5 if not thorough else 140):
         A("ecdsa.sign_k", [S.h32(keypool()), rng.randrange(2), S.h32(rkey(rng)), msg_descr(rng)[0], rng.choice(HASHES)])
     # nonce = key, invalid nonces
     d = rkey(rng)
@@ -188,7 +264,7 @@ def generate(rng, tier):
     # ---------------------------------------------------------------- pre-hashed digest
     for dg in ["00" * 32, "00" * 31 + "01", S.h32(N), S.h32(N - 1), S.h32(N + 1), "ff" * 32, "80" + "00" * 31]:
         A("ecdsa.sign_digest", [S.h32(keypool()), rng.randrange(2), dg])
-    for _ in range(12 * mult):
+    for _ in range(5 if not thorough else 120):
         A("ecdsa.sign_digest", [S.h32(keypool()), rng.randrange(2), bytes(rng.randrange(256) for _ in range(32)).hex()])
     for ln in [0, 1, 3, 31, 33, 64]:
         A("ecdsa.sign_digest", [S.h32(rkey(rng)), 1, "r:07:%d" % ln])
@@ -199,18 +275,18 @@ def generate(rng, tier):
         for rk in (0, 1):
             for c in (0, 1):
                 A("ecdsa.sign_random", [S.h32(keypool()), c, msg_descr(rng)[0], h, rk, "l:%d:32" % rng.randrange(1, 2 ** 31)])
-    for d in [1, N - 1] + [rkey(rng) for _ in range(6 * mult)]:
+    for d in [1, N - 1] + [rkey(rng) for _ in range(1 if not thorough else 60)]:
         A("ecdsa.sign_random", [S.h32(d), rng.randrange(2), msg_descr(rng)[0], rng.choice(HASHES), rng.randrange(2),
                                 rng.choice(["r:00:32", "r:ff:32", "l:%d:32" % rng.randrange(1, 2 ** 31)])])
     A("ecdsa.sign_random", [BADKEYS[1], 1, "00", "sha256", 0, "r:00:32"])
 
     # ---------------------------------------------------------------- sign, then verify with the same / another key, message, hash
-    for _ in range(10 * mult):
+    for _ in range(5 if not thorough else 100):
         d = keypool()
         m, _b = msg_descr(rng)
         h = rng.choice(HASHES)
         A("ecdsa.sign_verify", [S.h32(d), rng.randrange(2), m, h, rng.randrange(2), S.h32(d), rng.randrange(2), m, h])
-    for _ in range(8 * mult):
+    for _ in range(6 if not thorough else 80):
         d = keypool()
         m, mb = msg_descr(rng, rng.randrange(1, 60))
         h = rng.choice(HASHES)
@@ -219,11 +295,11 @@ def generate(rng, tier):
         mb2 = bytearray(mb); mb2[rng.randrange(len(mb2))] ^= 1 << rng.randrange(8)
         variants = [(d, bytes(mb2).hex(), h), (d, mb[:-1].hex(), h), (d, mb.hex() + "00", h), (d, m, other),
                     (N - d, m, h), (d % (N - 1) + 1, m, h), (rkey(rng), m, h)]
-        for (d2, m2, h2) in (variants if thorough else rng.sample(variants, 4)):
+        for (d2, m2, h2) in (variants if thorough else rng.sample(variants, 3)):
             A("ecdsa.sign_verify", [S.h32(d), rng.randrange(2), m, h, rng.randrange(2), S.h32(d2), rng.randrange(2), m2, h2])
 
     # ---------------------------------------------------------------- raw verification (signatures from the Python ECDSA)
-    for i in range(12 * mult):
+    for i in range(8 if not thorough else 120):
         d = keypool()
         double = rng.random() < 0.5
         hname = "sha256d" if double else "sha256"
@@ -278,14 +354,15 @@ def generate(rng, tier):
 
     # ---------------------------------------------------------------- leading zero bytes, digests >= n
     leading_zero_cases(A, rng, thorough)
+    audit_cases(A, rng, thorough)
 
     # ---------------------------------------------------------------- ECDH
     for (a, b) in [(1, 1), (1, 2), (2, N - 1), (N - 1, N - 1), (N - 2, 3), (2 ** 255, N // 2)]:
         A("ecdh.pair", [S.h32(a), rng.randrange(2), S.h32(b), rng.randrange(2)])
-    for _ in range(8 * mult):
+    for _ in range(3 if not thorough else 80):
         A("ecdh.pair", [S.h32(keypool()), rng.randrange(2), S.h32(rkey(rng)), rng.randrange(2)])
     A("ecdh.pair", [BADKEYS[0], 1, S.h32(5), 1])
-    for _ in range(6 * mult):
+    for _ in range(3 if not thorough else 60):
         A("ecdh.derive", [S.h32(keypool()), S.enc(S.pub(rkey(rng)), rng.random() < 0.5).hex()])
     for bp in badpubs[:8]:
         A("ecdh.derive", [S.h32(rkey(rng)), bp])
